@@ -2,7 +2,7 @@
 # apply every seeded change to /repo in turn, run the check of its property (quick), record whether it is reported;
 # /repo is restored after each.  usage: tools/seed_matrix.sh [seed ids...]   -> seeded/RESULTS.txt
 cd "$(dirname "$0")/.."
-ids="$@"; [ -z "$ids" ] && ids=$(ls seeded | grep -E '^C[0-9]+-[ab]$')
+ids="$@"; [ -z "$ids" ] && ids=$(ls seeded | grep -E '^C[0-9]+-[a-z]$')
 : > seeded/RESULTS.txt
 for s in $ids; do
   p=${s%-*}
